@@ -3,7 +3,7 @@
 //! gate "out" of m_i is connected to gate "in" of m_{i+1}; gate "far" of m_i to the transit
 //! gate "via" of m_{i+1}, which is connected to gate "fin" of m_{i+2} (indices mod k, no channels).
 //!
-//! script := k  mod{k'}  inj*                     k' = 2 + k mod 3 modules
+//! script := k  mod{k'}  inj*                     k' = 2 + k mod 3 modules; (k/3)%5 = v in 1..k': also run variant v-1
 //! mod    := catch stages bud  progs progs progs  lp(end)     catch odd: Stereotyp.on_panic_catch; 1 + stages mod 3 stages
 //! progs  := n lp(prog){n}                        start programs (by incarnation), message programs (by payload), tasks
 //! prog   := (op a b c)*                          op%8: 0 log c | 1 send_in(gate a odd ? "far" : "out", b ns, payload c)
@@ -20,6 +20,7 @@
 //!   14 now mask 0 0     after the start-up phase and after each dispatched event: is_active of all modules (bit i = module i)
 //!   15 kind m 0 0       entry of the error returned by the run (kind 0 PanicError, 1 JoinError), in order
 //!   17 0 0 0 0          separator: the whole simulation is then run a second time in the same process
+//!   18 m 0 0 0          separator: then the variant in which module m falls silent instead of panicking (k/3%5 = m+1)
 use des::net::module::Stereotyp;
 use des::net::{JoinError, PanicError};
 use des::prelude::*;
@@ -381,9 +382,19 @@ fn simulate(mods: &[ModCfg], inj: &[(u64, u64, u64, u64)]) -> Vec<u64> {
     out
 }
 
+fn quiet_prog(p: &mut Prog) {
+    for a in p.iter_mut() {
+        if let Act::Panic = a {
+            *a = Act::Quiet;
+        }
+    }
+}
+
 fn run_line(nums: &[u64]) -> Vec<u64> {
     let mut c = Cur::new(nums);
-    let k = (2 + c.next() % 3) as usize;
+    let k0 = c.next();
+    let k = (2 + k0 % 3) as usize;
+    let v = (k0 / 3) % 5;
     let mods: Vec<ModCfg> = (0..k).map(|_| dec_mod(&mut c)).collect();
     let mut inj = Vec::new();
     while c.left() >= 4 {
@@ -393,5 +404,15 @@ fn run_line(nums: &[u64]) -> Vec<u64> {
     let mut out = simulate(&mods, &inj);
     out.extend([17, 0, 0, 0, 0]);
     out.extend(simulate(&mods, &inj));
+    if v >= 1 && v as usize <= k {
+        // the variant in which module v-1 falls silent where its callbacks would have panicked
+        let m = (v - 1) as usize;
+        let mut mods2 = mods.clone();
+        mods2[m].start.iter_mut().for_each(quiet_prog);
+        mods2[m].msg.iter_mut().for_each(quiet_prog);
+        quiet_prog(&mut mods2[m].end);
+        out.extend([18, m as u64, 0, 0, 0]);
+        out.extend(simulate(&mods2, &inj));
+    }
     out
 }
